@@ -741,7 +741,8 @@ theorem ring_lifetime_values_repaired {α : Type} (v : VRing α) (x d : α) :
   ⟨VRing.push_t v x, VRing.pop_t v d⟩
 
 /-- ring_lifetime_exactly_once: construct `igris::ring<T>(n)` for ANY `n` with
-`n + 1 < 2^32` and run ANY script of `push`/`emplace`, `pop`, `clear`, `resize`,
+`n + 1 < 2^32` and run ANY script of `push`/`emplace` (also `push(head_place())`,
+the argument aliasing the slot), `pop`, `clear`, `resize`,
 copy construction and move construction (carrying on with the new object) —
 contract-respecting or not: push on a full ring, pop on an empty one included —
 and let the last object go out of scope.  Then no operation faults, and
@@ -762,10 +763,10 @@ theorem ring_lifetime_exactly_once {α : Type} (dflt : α) (n : Nat) (hn : n + 1
   obtain ⟨h1, h2, h3, h4, h5⟩ := VRing.invalidate_good g
   exact ⟨v, e, g.live, h1, h2, h3, h4, h5⟩
 
-example : ∀ op ∈ [VOp.push (1 : Int), .pop, .pop, .clear, .resize 5, .copy, .move], op.ok := by
+example : ∀ op ∈ [VOp.push (1 : Int), .pushSelf, .pop, .pop, .clear, .resize 5, .copy, .move], op.ok := by
   intro op h
   simp only [List.mem_cons, List.not_mem_nil, or_false] at h
-  rcases h with rfl | rfl | rfl | rfl | rfl | rfl | rfl <;> simp [VOp.ok]
+  rcases h with rfl | rfl | rfl | rfl | rfl | rfl | rfl | rfl <;> simp [VOp.ok]
 
 /-- what one `push` / `pop` does to the objects: in a ring whose slots all live,
 exactly one object is destroyed and exactly one is constructed (in the same slot),
